@@ -92,8 +92,9 @@ Record scratch := { sc_hist : list N;      (* history_ : vit_history_size bitset
                     sc_prev : list Z;      (* prevMetrics *)
                     sc_curr : list Z }.    (* currMetrics *)
 
-Record tiebreak := { tb_d0 : bool; tb_d1 : bool; tb_scan : bool }.
-Definition source_tiebreak : tiebreak := {| tb_d0 := false; tb_d1 := false; tb_scan := false |}.
+Record tiebreak := { tb_d0 : bool; tb_d1 : bool; tb_scan : bool; tb_start : nat }.
+(* strict comparisons everywhere; the end-state scan starts from the state the source names (regenerated: vit_scan_start) *)
+Definition source_tiebreak : tiebreak := {| tb_d0 := false; tb_d1 := false; tb_scan := false; tb_start := ConstsViterbi.vit_scan_start |}.
 Definition gt_tb (t : bool) (a b : Z) : bool := if t then a >=? b else a >? b.
 Definition lt_tb (t : bool) (a b : Z) : bool := if t then a <=? b else a <? b.
 
@@ -160,10 +161,10 @@ Definition vit_forward_t (T : tables) (tb : tiebreak) (sc : scratch) (r : list Z
 Definition vit_forward (tb : tiebreak) (W : nat) (sc : scratch) (r : list Z) (n : nat) : scratch :=
   vit_forward_t (make_tables W) tb sc r n.
 
-(* min_element = 0; min_cost = prevMetrics[0]; for i: if (prevMetrics[i] < min_cost) {min_cost = ..; min_element = i;} *)
+(* min_element = s0; min_cost = prevMetrics[s0] (s0 = tb_start, 0 in the source); for i: if (prevMetrics[i] < min_cost) {min_cost = ..; min_element = i;} *)
 Definition scan_min (tb : tiebreak) (prev : list Z) : nat * Z :=
   fold_left (fun (acc : nat * Z) i => if lt_tb (tb_scan tb) (nth i prev 0) (snd acc) then (i, nth i prev 0) else acc)
-            (seq 0 NumStates) (0%nat, nth 0 prev 0).
+            (seq 0 NumStates) ((tb_start tb mod NumStates)%nat, nth (tb_start tb mod NumStates) prev 0).
 
 (* size_t cost = std::round(min_cost / float(llr_limit)): nearest integer (0 <= min_cost < 2^24 is exact in float, and
    as the limit is odd a tie at .5 cannot occur); modelled as integer arithmetic, not as IEEE operations *)
